@@ -95,7 +95,7 @@ func checkC17(c *Ctx) {
 			return
 		}
 		rc := rtCase{kind, src, sk}
-		var t1, t2 ast.Node
+		var t1, t2, t2w ast.Node
 		var err1, err2 error
 		var printed string
 		var pan any
@@ -119,6 +119,17 @@ func checkC17(c *Ctx) {
 			printed = t1.String()
 			if kind == "expr" {
 				t2, err2 = parse.Expr(printed)
+				if err2 == nil {
+					// parse.Expr stops at the first token that cannot continue the expression and
+					// ignores the rest; inside brackets the whole text has to be consumed.
+					var w ast.Node
+					w, err2 = parse.Expr("[" + printed + "]")
+					if l, ok := w.(*ast.ListLiteralNode); err2 == nil && (!ok || len(l.Items) != 1) {
+						err2 = fmt.Errorf("[%s] does not parse to a one-element list", printed)
+					} else if err2 == nil {
+						t2w = l.Items[0]
+					}
+				}
 			} else {
 				t2, err2 = parsePrint(printed)
 			}
@@ -154,6 +165,9 @@ func checkC17(c *Ctx) {
 		default:
 			c.Nontrivial()
 			d1, d2 := nodeDigest(t1), nodeDigest(t2)
+			if t2w != nil && d1 == d2 {
+				d2 = nodeDigest(t2w)
+			}
 			if d1 != d2 {
 				c.Violate("the printed text parses to a structurally identical tree", "mismatch", "different-tree:"+sig, rc, "same tree", fmt.Sprintf("String() = %q parses to a different tree", printed))
 			} else if prev, ok := texts[printed]; ok && prev != d1 {
@@ -204,7 +218,7 @@ func checkC17(c *Ctx) {
 		}
 	}
 	// literals needing care
-	for _, s := range []string{"''", `'\''`, `'\\'`, `'a\nb\tc\r'`, `'é'`, `'é'`, `'}'`, `'"'`, "1e3", "1.5e-2", "2.0", "100.0", "1e21", "1e-7", "0.000001", "123456789.5", "-2.0", "-0", "0", "-9223372036854775807",
+	for _, s := range []string{"''", `'\''`, `'\\'`, `'a\nb\tc\r'`, `'é'`, `'é'`, `'}'`, `'"'`, "1e3", "1.5e-2", "2.0", "100.0", "1e21", "1e-7", "6.02e23", "2.5e300", "-1e22", "1e20", "123456789012345678901.0", "1e21 * $x", "[1e21, 2]", "f(1e22)", "$a[1e21]", "1.5e-300", "1e21 ? 1e22 : 1e23", "0.000001", "123456789.5", "-2.0", "-0", "0", "-9223372036854775807",
 		"0x1F", "[]", "[:]", "[1]", "[1, [2, [3]]]", "['a': 1]", "['a': 1, 'b': ['c': [:]]]", `['it\'s': 1]`, `['a b': 1, 'c,d': 2, 'e:f': 3]`, "['z': 1, 'y': 2, 'x': 3, 'w': 4]",
 		"f()", "f(1)", "f(1, 'a', $x)", "f(g(h(1)))", "a.b.c", "$ij.a", "$a.b?.c[0]?[1].2?.3", "$a[$b[$c]]", "$a['k']", "$a[1 + 2]", "$a?[not $b]",
 		"[1 + 2, $a ? 1 : 2]", "['k': 1 + 2, 'j': $a ?: 3]", "f(1 + 2, not $a)", "$a[$b ? 1 : 2]", "not f(1)", "-f(1)", "-$a.b", "not $a.b", "- -1", "-(-1)", "- - $a", "not not $a",
